@@ -35,6 +35,8 @@ ufunc('snap_len', ['Any'], 'Int')                        # rows of a snapshot (c
 ufunc('snap_path', ['Any', 'Int'], 'Str')
 ufunc('snap_name', ['Any', 'Int'], 'Str')
 ufunc('snap_table', ['Any'], 'Str')
+ufunc('snap_data', ['Any', 'Int'], 'Any')
+ufunc('any_decode', ['Any'], 'Any')
 ufunc('zdec', ['Any'], 'Any')                            # zlib.decompress
 ufunc('file_of', ['Path'], 'TempFile')                   # the temporary file object created under a name
 
@@ -113,7 +115,8 @@ contract('lib:BinFile.read', types={'$params': ['self'], 'return': 'Any'},
          ensures=['snap_len(result) == len(file_of(self.name).db)',
                   'forall(lambda j: implies(0 <= j and j < len(file_of(self.name).db), '
                   '       snap_path(result, j) == file_of(self.name).db[j][0] and '
-                  '       snap_name(result, j) == file_of(self.name).db[j][4]), "Int")'],
+                  '       snap_name(result, j) == file_of(self.name).db[j][4] and '
+                  '       snap_data(result, j) == file_of(self.name).db[j][2]), "Int")'],
          assumed=True, note='the bytes of the sqlite file: a token whose rows are the rows inserted')
 contract('lib:zlib.compress', types={'$params': ['data'], 'data': 'Any', 'return': 'Any'},
          ensures=['zdec(result) == data'], assumed=True, note='decompress(compress(x)) == x')
@@ -131,7 +134,8 @@ def covers(node, batch):
     return (zk_exists(node) and snap_len(zdec(zk_content(node))) == len(batch) and
             forall(lambda j: implies(0 <= j and j < len(batch),
                                      snap_path(zdec(zk_content(node)), j) == batch[j][0] and
-                                     snap_name(zdec(zk_content(node)), j) == batch[j][4]), 'Int'))
+                                     snap_name(zdec(zk_content(node)), j) == batch[j][4] and
+                                     snap_data(zdec(zk_content(node)), j) == batch[j][2]), 'Int'))
 
 
 # ------------------------------------------------------------------ _zk.upload_batch: snapshot first, then delete
@@ -153,8 +157,8 @@ contract(T + ':upload_batch',
          # a failure (upload or a delete) leaves every node of the batch either live and unchanged or archived
          raises={'KazooException': [
              ('C18', 'forall(lambda p: zk_same(p) or (in_paths(batch, p) and not zk_exists(p) and '
-                     '       exists(lambda q: not old(zk_exists(q)) and zk_exists(q) and cp_parent(q) == cp_parent(db_node_path) and '
-                     '              snap_has(zk_content(q), p), "Str")) or '
+                     '       exists(lambda q: not old(zk_exists(q)) and covers(q, batch) and '
+                     '              cp_parent(q) == cp_parent(db_node_path), "Str")) or '
                      '       (not old(zk_exists(p)) and zk_exists(p) and cp_parent(p) == cp_parent(db_node_path)), "Str")',
               'failed_safe')]},
          ensures=[('C18', 'not old(zk_exists(D)) and covers(D, batch) and cp_parent(D) == cp_parent(db_node_path)',
@@ -283,3 +287,70 @@ invariant(A + ':cleanup_trace', 2, 'for idx in range(0, len(traces), batch_size)
            ('C18', 'tw(traces, expires_after)'),
            ('C18', 'lossless()'),
            ('C18', 'only_selected(traces)')])
+
+
+# ------------------------------------------------------------------ app.zk.cleanup_finished
+contract('lib:KazooClient.get', types={'$params': ['self', 'path'], 'path': 'Str', 'return': 'Tuple[Opt[Any],ZnodeStat]'},
+         raises={'NoNodeError': ['not zk_exists(path)', 'all_same()']},
+         ensures=['zk_exists(path)', 'implies(result[0] is not None, result[0] == zk_content(path))',
+                  '(result[0] is None) == (zk_content(path) == None)',
+                  'result[1].last_modified == zk_mtime(path)', 'all_same()'],
+         modifies=['alloc'], assumed=True, note='kazoo get: payload bytes (None for an empty node) and the stat; read only')
+ufunc('zk_mtime', ['Str'], 'Real')        # last modification time of a node (unchanged while nobody writes it)
+
+
+@spec
+def fin_archived(p):
+    """Some live snapshot in the finished history holds the record p with the content it had."""
+    return exists(lambda q, j: zk_exists(q) and cp_parent(q) == '/finished.history' and 0 <= j and
+                  j < snap_len(zdec(zk_content(q))) and snap_path(zdec(zk_content(q)), j) == p and
+                  snap_data(zdec(zk_content(q)), j) == rec_text(old(zk_content(p))), 'Str', 'Int')
+
+
+@spec
+def rec_text(c):
+    """What cleanup_finished stores for a payload: None for an empty node, else the decoded bytes."""
+    return ite(c == None, None, any_decode(c))
+
+
+@spec
+def fin_lossless():
+    return forall(lambda p: implies(old(zk_exists(p)), zk_same(p) or fin_archived(p)), 'Str')
+
+
+@spec
+def fin_only_expired(expires_after):
+    return forall(lambda n: implies(old(zk_exists(cp('/finished', n))) and not zk_exists(cp('/finished', n)),
+                                    zk_mtime(cp('/finished', n)) < clock_now() - expires_after), 'Str')
+
+
+@spec
+def fw(expired, expires_after):
+    return forall(lambda j: implies(0 <= j and j < len(expired),
+                                    expired[j][0] == cp('/finished', expired[j][4]) and
+                                    expired[j][1] == zk_mtime(expired[j][0]) and
+                                    expired[j][1] < clock_now() - expires_after and
+                                    expired[j][2] == rec_text(old(zk_content(expired[j][0])))), 'Int')
+
+
+@spec
+def fin_only_selected(expired):
+    return forall(lambda p: zk_same(p) or
+                  exists(lambda j: 0 <= j and j < len(expired) and p == expired[j][0], 'Int') or
+                  (not old(zk_exists(p)) and cp_parent(p) == '/finished.history'), 'Str')
+
+
+contract(A + ':cleanup_finished',
+         types={'zkclient': 'KazooClient', 'batch_size': 'Int', 'expires_after': 'Real',
+                'expired': 'List[%s]' % ROW, 'batch': 'List[%s]' % ROW},
+         requires=['batch_size >= 1'],
+         raises={'KazooException': [('C18', 'fin_lossless()', 'lossless_on_failure'),
+                                    ('C18', 'fin_only_expired(expires_after)', 'only_expired_on_failure')]},
+         ensures=[('C18', 'fin_lossless()', 'lossless'),
+                  ('C18', 'fin_only_expired(expires_after)', 'only_expired')],
+         modifies=['zk', 'fs', 'alloc', 'clock'], props=['C18'])
+invariant(A + ':cleanup_finished', 0, 'for finished in zkclient.get_children(z.FINISHED)',
+          ['all_same()', 'batch_size >= 1', ('C18', 'fw(expired, expires_after)')])
+invariant(A + ':cleanup_finished', 1, 'for idx in range(0, len(expired), batch_size)',
+          ['batch_size >= 1', ('C18', 'fw(expired, expires_after)'), ('C18', 'fin_lossless()'),
+           ('C18', 'fin_only_selected(expired)')])
